@@ -2,9 +2,18 @@
 EXTENDS RuleStream, IOUtils, TLC
 VARIABLE count0
 CountsV == (0..9) \cup {-1}
+Ident == {[i \in 1..N |-> i]}
+(* correction maps with duplicates and set-backs: non-decreasing maps, and maps with one gap where a run of    *)
+(* members is moved back onto earlier instants (zone transition)                                               *)
+GapMaps == {[i \in 1..N |-> IF i >= g THEN i - w ELSE i] : g \in 2..N, w \in 1..3} \cup
+           {[i \in 1..N |-> IF i >= g /\ i < g + w THEN g - 1 ELSE i] : g \in 2..N, w \in 1..N}
+CorrsV == Ident \cup {m \in GapMaps : \A i \in 1..N : m[i] >= 1}
 InitE == Init /\ count0 = count
 NextE == Next /\ UNCHANGED count0
 SpecE == InitE /\ [][NextE]_<<vars, count0>>
+(* when the correction only collapses members (non-decreasing) nothing but the duplicates is lost *)
+NonDecr == \A i \in 1..(N - 1) : corr[i] <= corr[i + 1]
+NothingLost == (ended /\ NonDecr /\ count0 < 0) => {popped[i] : i \in 1..Len(popped)} = {corr[j] : j \in 1..N}
 (* ... and it ends exactly when COUNT or the set is exhausted *)
 EndsRight == ended => Len(popped) = (IF count0 < 0 \/ count0 > N THEN N ELSE count0)
 NeverTooMany == count0 >= 0 => Len(popped) <= count0
